@@ -321,7 +321,12 @@ func Run(c Case, h Hooks) Result {
 					}
 					issueBounded(call)
 					if op.Await {
-						scen.Await(call.DoneCh(), scen.B)
+						// the thread collects the future if it completes soon; a call that cannot
+						// complete by itself must not stall the program
+						select {
+						case <-call.DoneCh():
+						case <-time.After(30 * time.Millisecond):
+						}
 					}
 				}
 			}
